@@ -74,11 +74,18 @@ def run_one(s):
                 return tp.samplers.GaussianSampler(dom, n_points=n, mean=[0.0] * d, std=1.5).sample_points(par), "cols"
             if kind == "s_lhs":
                 return tp.samplers.LHSSampler(dom, n_points=n).sample_points(par), "cols"
-            if kind == "s_adaptive":
-                smp = tp.samplers.AdaptiveThresholdRejectionSampler(dom, resample_ratio=0.5, n_points=n, filter_fn=flt)
+            if kind in ("s_adaptive", "s_adaptive_r"):
+                # history: first call, then calls with a loss (some points are kept) and with OTHER parameter values
+                if kind == "s_adaptive":
+                    smp = tp.samplers.AdaptiveThresholdRejectionSampler(dom, resample_ratio=0.5, n_points=n, filter_fn=flt)
+                else:
+                    smp = tp.samplers.AdaptiveRandomRejectionSampler(dom, n_points=n, filter_fn=flt)
+                par2 = U.mk_params(names, rows_for(names, k, tid + ci + 5))
                 first = smp.sample_points(params=par)
                 loss = torch.arange(len(first), dtype=torch.float32) % 3
-                return smp.sample_points(unreduced_loss=loss, params=par), "cols"
+                second = smp.sample_points(unreduced_loss=loss + 1.0, params=par2)
+                loss = (torch.arange(len(second), dtype=torch.float32) + 1) % 3
+                return smp.sample_points(unreduced_loss=loss + 1.0, params=par), "cols"
             raise ValueError(kind)
         if hangs >= 2:          # (nearly) empty domain: every call would run into the watchdog
             rec["exc"] = "skipped"
